@@ -15,7 +15,7 @@ CLAIMED = {
              "[0, MAX] and is 0 whenever the previous kernel reads SHRAM bytes (its lookup table) that the current kernel overwrites; the SHRAM bytes a "
              "kernel is declared to write cover the layout its block configuration uses; ArchitectureFeatures.get_ifm_block_size (the job input "
              "volume the BLOCKDEP analysis assumes) covers the receptive field of an OFM block per axis for symbolic kernels, strides and blocks (also through the real get_first_job_input_volume); "
-             "address registers hold the operation's addresses at each NPU_OP word (what the wait analysis assumes), incl. bits 32..39. Added later: get_address_ranges_for_area (4 tiles) contains every byte of every element of the area; get_offset_block_coords numbers blocks depth/width/height; job j of the consumer is analysed at OFM block j // jobs_per_block (one job per block for depthwise/pooling/elementwise, IFM depth slices for convolutions) with the channels it reads (get_ifm_ofm_block_depth + get_first_job_input_volume); strided views keep their own footprint across calls. Round 7-8 additions: range_lists_overlap on lists with unused tiles; intersects() reports every pair of areas that share a byte (symbolic bases); re-targeted feature-map objects. Round 9 additions: the kernel the BLOCKDEP analysis works with is the operation's kernel (real to_kernel / to_npu_kernel on six symbolic fields; ifm_block obtains its kernel through to_kernel).",
+             "address registers hold the operation's addresses at each NPU_OP word (what the wait analysis assumes), incl. bits 32..39. Added later: get_address_ranges_for_area (4 tiles) contains every byte of every element of the area; get_offset_block_coords numbers blocks depth/width/height; job j of the consumer is analysed at OFM block j // jobs_per_block (one job per block for depthwise/pooling/elementwise, IFM depth slices for convolutions) with the channels it reads (get_ifm_ofm_block_depth + get_first_job_input_volume); strided views keep their own footprint across calls. Round 7-8 additions: range_lists_overlap on lists with unused tiles; intersects() reports every pair of areas that share a byte (symbolic bases); re-targeted feature-map objects. Round 9 additions: the kernel the BLOCKDEP analysis works with is the operation's kernel (real to_kernel / to_npu_kernel on six symbolic fields; ifm_block obtains its kernel through to_kernel). Round 12: DMA source and destination lengths independent in dma_access.",
         note="Trusted: z3, symx proxies, the two-queue hardware model restated from the property, stubs replacing register "
              "generation/blockdep in layer 1. Outside: whether a non-zero BLOCKDEP is safe under NPU block timing; streams of compiled networks.",
         technique="dynamic symbolic execution of the real Python functions over z3 proxies (symx), bounded; counterexample replay",
@@ -56,7 +56,7 @@ CLAIMED = {
              "not yet overwritten in a rolling buffer of the height rolling_buffer_shape() gives; Scheduler.propose_minimal_schedule / "
              "propose_schedule_striping on operator chains with symbolic strides: producer stripes cover the consumer's stride and nearest-upscaling "
              "operators only get even stripe heights (the assumption of the x2 upscaling lemma). rows/cols also run with the operator reading a slice of a larger "
-             "tensor (fused Split/StridedSlice: symbolic read offset and extent) and take the programmed pads from the REAL create_padding. Added later: transpose-convolution paddings through the real fixup_conv2d_backprop + add_padding_fields for symbolic kernels and sizes (strides 2x2 and 2x1 exact; stride 1x1 is a recorded finding); CascadeBuilder._is_cascadable never lets a transpose convolution or a tile-padded operator be striped; rolling_buffer_shape dimensions. Round 7-8 additions: Scheduler.apply_schedule twice on a real Tensor (apply_twice); the stripe input recorded by create_scheduler_info (stripe_input); restripe_buffers. Round 9 addition: kernel_conversion (to_npu_kernel / to_kernel keep every field).",
+             "tensor (fused Split/StridedSlice: symbolic read offset and extent) and take the programmed pads from the REAL create_padding. Added later: transpose-convolution paddings through the real fixup_conv2d_backprop + add_padding_fields for symbolic kernels and sizes (strides 2x2 and 2x1 exact; stride 1x1 is a recorded finding); CascadeBuilder._is_cascadable never lets a transpose convolution or a tile-padded operator be striped; rolling_buffer_shape dimensions. Round 7-8 additions: Scheduler.apply_schedule twice on a real Tensor (apply_twice); the stripe input recorded by create_scheduler_info (stripe_input); restripe_buffers. Round 9 addition: kernel_conversion (to_npu_kernel / to_kernel keep every field). Round 12: area_required - the real get_ifm_area_required bounds the window's input rows/columns for all three resampling modes.",
         note="Trusted: z3, symx proxies, the hardware-side rule that the NPU derives the valid IFM extent from OFM size, kernel, stride "
              "and pads (DESIGN §3 C10), stand-in schedule objects. Bounds: H<=64 (thorough 4096), kernel<=8 (16), cascade height<=40, "
              "<=4 consumer / <=12 producer stripes. Outside: scheduler-chosen stripe sequences of real networks, exact pad semantics "
@@ -160,7 +160,7 @@ CLAIMED = {
              "weights x combined/stand-alone scales) with symbolic encoded ranges names the region and bytes of the tensor that holds them; the arguments "
              "handed to the C codec (dilation axes, bit depth, traversal) per accelerator; the REAL Scheduler.propose_weight_buffering over symbolic "
              "per-slice byte counts: every depth slice fits the SRAM buffer it is DMA-ed into and weight and scale tensors describe the recorded slices; the "
-             "(multiplier, shift) of each scale record is the reference quantisation of the reference per-channel scale (C09's prep_scales and qs lemmas). Added later: a request that differs from a cached one in any codec input (values of a clone with the same equivalence id, dilation, block depth, depth offsets, block type) is encoded afresh, and one that differs in bias values, IFM scale or OFM scale (symbolic floats) derives and packs its own scale records; a core without a stream of its own is programmed with length 0 (idle_core); serialise_npu_subgraph_into_tensors writes every operation's weight stream and scale records to the constant tensor at their addresses, for every sharing pattern of 2..4 operations. Round 7-8 additions: 40-bit bias packing through int.to_bytes-style code (bit-vector exact); the reduced int16 multiplier; a rewrite that changes weight values refreshes value_id (rewrite_value_id). Round 9 addition: the real max_range_bytes() / double_buffer_size() bound every slice's extent (all cores' ranges with alignment).",
+             "(multiplier, shift) of each scale record is the reference quantisation of the reference per-channel scale (C09's prep_scales and qs lemmas). Added later: a request that differs from a cached one in any codec input (values of a clone with the same equivalence id, dilation, block depth, depth offsets, block type) is encoded afresh, and one that differs in bias values, IFM scale or OFM scale (symbolic floats) derives and packs its own scale records; a core without a stream of its own is programmed with length 0 (idle_core); serialise_npu_subgraph_into_tensors writes every operation's weight stream and scale records to the constant tensor at their addresses, for every sharing pattern of 2..4 operations. Round 7-8 additions: 40-bit bias packing through int.to_bytes-style code (bit-vector exact); the reduced int16 multiplier; a rewrite that changes weight values refreshes value_id (rewrite_value_id). Round 9 addition: the real max_range_bytes() / double_buffer_size() bound every slice's extent (all cores' ranges with alignment). Round 12: consumer stand-ins use the real Operation quantisation getters with a forced-or-own choice.",
         note="Partial by design: the byte content of the compressed streams (C codec, C07) is outside; what is decided is the index/offset/"
              "length bookkeeping around it. Trusted: z3, symx proxies, length-only byte-stream stand-ins. Assumes intermediate slice boundaries "
              "are multiples of the core count (established by propose_weight_buffering).",
